@@ -683,11 +683,31 @@ def falsy_and_absent_sites(fn: ast.AST, doc_params: Set[str],
             bad.append((c, "`{}` turns a document value into its "
                         "truthiness: the text 'false' (any non-empty text) "
                         "becomes True".format(src(c))))
+    # nodes looked up in an anchors table (filled by scan_for_anchors) are
+    # nodes of the document
+    tables = {c.args[1].id for c in walk_local(fn)
+              if isinstance(c, ast.Call) and
+              src(c.func).endswith("scan_for_anchors") and
+              len(c.args) == 2 and isinstance(c.args[1], ast.Name)}
+    anchored: Set[str] = set()
+    for n in walk_local(fn):
+        if isinstance(n, ast.Assign) and len(n.targets) == 1 and \
+                isinstance(n.targets[0], ast.Name) and any(
+                    isinstance(x, ast.Subscript) and
+                    isinstance(x.value, ast.Name) and x.value.id in tables
+                    for x in ast.walk(n.value)):
+            anchored.add(n.targets[0].id)
     tests = _tests_of(fn)
     for t in tests:
         for e in _truth_operands(t):
             if isinstance(e, ast.Name) and e.id in containers:
                 continue    # emptiness of a value annotated as a container
+            if isinstance(e, ast.Name) and e.id in anchored:
+                bad.append((e, "`{}` is a node looked up in the anchors "
+                            "table: its truthiness takes an empty anchored "
+                            "hash / list (or 0, '') for a missing anchor"
+                            .format(e.id)))
+                continue
             if src(e) in doc_exprs or (
                     "<.node>" in doc_exprs and isinstance(e, ast.Attribute)
                     and e.attr == "node"):
@@ -1208,5 +1228,8 @@ def run(chk: Check) -> None:
     from rules.shared import readonly_lookups_rule
     readonly_lookups_rule(chk, "C06-D9",
                           ("yamlpath/differ/differconfig.py",), 1)
+    from rules.shared import implicit_ordering_rule
+    implicit_ordering_rule(chk, "C06-D10",
+                           chk.prog.funcs_in("yamlpath/differ/differ.py"), 10)
     d5_both_sides(chk)
     d6_exit_and_ladders(chk)
